@@ -304,14 +304,16 @@ def _gen_inputs(tier, rng):
     # --- Array2D entry points on other input kinds / subclass instances, shape arguments as list / numpy integers, defaults omitted,
     #     resize through dataset.preprocess.array_with_new_shape
     for n in range(1300 if big else 270):
-        h, w = rng.randint(1, 5), rng.randint(1, 5)
+        h, w = rng.randint(1, 6), rng.randint(1, 6)
         mk = rmask(h, w, rng); a = [values(h, w, rng, wide=(n % 2 == 0)), mk]
         vs = {"tag": "kinds", "var": VARS2[n % 7], "sc": SCS[(n // 7) % 7], "sk": SKS[(n + n // 9) % 3], "omit": (n // 3) % 2 == 0, "pre": n % 4 == 1}
         kk = [rng.choice(ODD), rng.choice(ODD)]
         c = n % 9
         if c == 0: yield {"op": "arr_resize", "a": a, "rs": [rng.randint(1, 7), rng.randint(1, 7)], "mpv": (n // 9) % 2, **vs}
         elif c == 1: yield {"op": "arr_pad", "a": a, "k": kk, "mpv": (n // 9) % 2, **vs}
-        elif c == 2: yield {"op": "arr_trim", "a": a, "k": kk, **vs}
+        elif c == 2:      # a kernel that leaves something (k <= shape per axis) three times out of four
+            kt = kk if n % 4 == 3 else [rng.choice([k for k in ODD if k <= h]), rng.choice([k for k in ODD if k <= w])]
+            yield {"op": "arr_trim", "a": a, "k": kt, **vs}
         elif c == 3: yield {"op": "pad_trim", "a": a, "k": kk, "mpv": (n // 9) % 2, **vs}
         elif c == 4: yield {"op": "enlarge_shrink", "a": a, "rs": [h + rng.randint(0, 3), w + rng.randint(0, 3)], "mpv": (n // 9) % 2, **vs}
         elif c == 5: yield {"op": "pad_trimarr", "a": a, "k": kk, **vs}
@@ -349,6 +351,13 @@ def _gen_inputs(tier, rng):
                   ["coords", [h + 2 * rng.randint(0, 2), w + 2 * rng.randint(0, 2)]], ["zoom_region"]]
             rng.shuffle(st)
             yield {"op": "hist_mask", "g": g, "steps": st, "blur": n % 2 == 1, **{**base, "mc": mc}}
+    # --- Grid2D.padded_grid_from (the PSF padding of a grid): exhaustive over small shapes and odd kernels, some even kernels
+    S = 5 if big else 3
+    for h, w in itertools.product(range(1, S + 1), repeat=2):
+        for k0, k1 in list(itertools.product(ODD, repeat=2)) + [(2, 2), (4, 3), (1, 2)]:
+            i += 1
+            yield {"op": "pad_grid", "m": rmask(h, w, rng, 0.4), "k": [k0, k1], "g": list(GEOMS[i % len(GEOMS)]), "sk": SKS[i % 3],
+                   "via": ["from_mask", "uniform", "no_mask"][i % 3]}
     for n in range(60 if big else 16):          # Mask2D.from_fits(resized_mask_shape=..., invert=...)
         h, w = rng.randint(1, 5), rng.randint(1, 5)
         yield {"op": "mask_fits", "m": rmask(h, w, rng, 0.5), "rs": [rng.randint(1, 7), rng.randint(1, 7)], "inv": n % 2 == 1, "sk": SKS[n % 3]}
@@ -376,7 +385,7 @@ def _gen_inputs(tier, rng):
         if nneg: noise = [[(rng.choice([0, -1, -7]) if mk[y][x] else noise[y][x]) for x in range(w)] for y in range(h)]
         g = list(rng.choice(GEOMS))
         yield {"op": "apply_mask", "tag": "kinds", "data": values(h, w, rng, wide=(n % 2 == 1)), "noise": noise, "m": mk, "k": k, "g": g,
-               "gd": list(rng.choice(GEOMS)) if n % 2 == 0 else g, "gp": list(rng.choice(GEOMS))[:2] if n % 4 < 3 else g[:2],
+               "gp": list(rng.choice(GEOMS))[:2] if n % 4 < 3 else g[:2],
                "dv": (DVS + DVS2)[n % 11], "sc": SCS[(n // 11) % 7], "entry": ["apply", "direct", "apply", "direct_nopad"][n % 4] if not nneg else ["apply", "direct"][n % 2],
                "nocheck": nneg, "os": [rng.randint(1, 3), rng.randint(1, 3)] if n % 5 < 2 else None, "subimg": n % 7 == 0, "subpsf": n % 7 == 3}
     for n in range(150 if big else 40):
@@ -899,8 +908,9 @@ def _run_case(inp):
         mask, m = mk_mask2(aa, inp, ("1", "1", "0", "0"))
         out, coq = mask_step(aa, mask, ["zoom_region"], m, None, geom_bad)
     elif op == "apply_mask":
-        # g: geometry of the MASK (the masked dataset lives on the mask's frame); gd: geometry of the unmasked data; gp: pixel
-        # scales of the PSF -- three geometries that usually coincide, varied independently.  entry: "apply" (Imaging.apply_mask),
+        # g: geometry of the mask and of the unmasked data; gp: pixel scales of the PSF (usually the same as the data's: varied
+        # independently, they must not influence anything).  (gd: geometry of the unmasked data where it differs from the mask's --
+        # the code then works on the mask's frame; not generated, the property text does not say which of the two is kept.)  entry: "apply" (Imaging.apply_mask),
         # "direct" (Imaging(data=Array2D(values, mask), ..., pad_for_convolver=True): the anchored __init__ lines reached without
         # apply_mask), "direct_nopad" (pad_for_convolver=False: never padded).  os: an explicit OverSamplingDataset argument.
         g = inp["g"]; gd = inp.get("gd", g); gp = inp.get("gp", g[:2]); gf = [float(Fraction(x)) for x in gd]
@@ -932,7 +942,7 @@ def _run_case(inp):
                                    ("padded" if len(out[1][0]) != len(inp["m"]) or len(out[1][0][0]) != len(inp["m"][0]) else "not padded")))
         tally("apply_mask data variant " + eff_var(dv, inp["data"], sc) + (" scaled" if sc else ""))
         if entry != "apply": tally("apply_mask entry " + entry)
-        if gd != g or list(gp) != list(g[:2]): tally("apply_mask with independent data / mask / psf geometries")
+        if gd != g or list(gp) != list(g[:2]): tally("apply_mask with PSF pixel scales different from the data's")
         coq = img_case(inp["data"], inp["noise"], inp["m"], kmod, g, out)
         out = img_str(out)
     elif op == "apply_mask_trim":
@@ -956,6 +966,27 @@ def _run_case(inp):
         coq = (f"KApplyMaskTrim {czarr(inp['data'])} {czarr(inp['noise'])} {cbarr(inp['m'])} {cpair(inp['k'])} "
                f"{cgeom(g)} {cres(out, pr)}")
         if out[0] == "ok": out = ("ok", [out[1][0], out[1][1], out[1][2], [[str(a), str(b)] for a, b in out[1][3]]])
+    elif op == "pad_grid":
+        g = inp["g"]; gf = [float(Fraction(x)) for x in g]; m = inp["m"]; h, w = len(m), len(m[0])
+        def f():
+            if inp["via"] == "from_mask": grid = aa.Grid2D.from_mask(mask=mk_mask(aa, m, g))
+            elif inp["via"] == "uniform": grid = aa.Grid2D.uniform(shape_native=(h, w), pixel_scales=(gf[0], gf[1]), origin=(gf[2], gf[3]))
+            else:
+                base = np.array(aa.Grid2D.uniform(shape_native=(h, w), pixel_scales=(gf[0], gf[1]), origin=(gf[2], gf[3])).native)
+                grid = aa.Grid2D.no_mask(values=base, pixel_scales=(gf[0], gf[1]), origin=(gf[2], gf[3]))
+            g0 = np.array(grid).copy(); fm = fp_mask(grid.mask)
+            ks = shp(inp["k"], opt["sk"])
+            pg = grid.padded_grid_from(kernel_shape_native=ks)
+            if list(ks) != list(inp["k"]): geom_bad.append("padded_grid_from modified its kernel shape argument")
+            if not np.array_equal(g0, np.array(grid)) or not fp_eq(fm, fp_mask(grid.mask)): geom_bad.append("padded_grid_from modified the grid")
+            if np.array(pg.mask).any(): geom_bad.append("the padded grid's mask is not all False")
+            if not fp_eq(fp_mask(pg.mask)[1:], fm[1:]): geom_bad.append("padded_grid_from: pixel scales / origin not kept")
+            return [[int(pg.mask.shape_native[0]), int(pg.mask.shape_native[1])], [[fr(p[0]), fr(p[1])] for p in np.array(pg).reshape(-1, 2)]]
+        out = call_res(f)
+        pr = lambda o: ctup([cpair(o[0]), clist([cqq(p) for p in o[1]])])
+        coq = f"KPadGrid {cpair((h, w))} {cpair(inp['k'])} {cgeom(g)} {cres(out, pr)}"
+        tally("pad_grid kernel " + ("odd" if inp["k"][0] % 2 and inp["k"][1] % 2 else "even") + " via " + inp["via"])
+        if out[0] == "ok": out = ("ok", [out[1][0], [[str(a), str(b)] for a, b in out[1][1]]])
     elif op == "resize_coords":
         mask, m = mk_mask2(aa, inp, inp["g"])
         out, coq = mask_step(aa, mask, ["coords", inp["rs"]], m, inp["g"], geom_bad, opt)
